@@ -22,6 +22,7 @@ Abstract world (JSON-able, shared with the Lean model `MesonModel.DepPolicy`):
 from __future__ import annotations
 
 import copy
+import json
 import typing as T
 
 from .common import enc
@@ -98,19 +99,137 @@ class _Holder:
         raise _Impl.InvalidArguments(f'Requested variable "{v}" not found.')
 
 
-class Session:
-    """One configuration: a mutable concrete world behind the real DependencyFallbacksHolder."""
+# ---------------------------------------------------------------------------------------------
+# identifiers: which keywords of dependency() enter the key of the override / cache tables
+# ---------------------------------------------------------------------------------------------
 
-    def __init__(self, world: dict):
+_IDENT: T.Dict[str, T.Any] = {}
+
+
+def ident_keywords() -> T.Dict[str, T.Any]:
+    """harvested from the live code: {keyword: sample non-default value (JSON-able)} for every keyword of
+    dependency() that changes `get_dep_identifier` — so that a keyword added later is driven automatically"""
+    if _IDENT:
+        return _IDENT
+    _Impl.load()
+    from mesonbuild.interpreter.type_checking import DEPENDENCY_KWS
+    from mesonbuild.interpreterbase.decorators import ContainerTypeInfo
+    gdi = _Impl.dependencies.get_dep_identifier
+    base = gdi('x', {})
+    for kw in DEPENDENCY_KWS:
+        types = kw.types if isinstance(kw.types, tuple) else (kw.types,)
+        samples: T.List[T.Any] = []
+        for t in types:
+            if isinstance(t, ContainerTypeInfo):
+                samples.append(['m1'])
+            elif t is bool:
+                samples.append(not kw.default if isinstance(kw.default, bool) else True)
+            elif t is str:
+                samples += ['pkg-config', 'c', 'x1']
+            elif t is int:
+                samples.append(7)
+        for sv in samples:
+            try:
+                val = kw.convertor(sv) if kw.convertor else sv
+                if gdi('x', {kw.name: val}) != base:
+                    _IDENT[kw.name] = sv
+                    break
+            except Exception:
+                continue
+    _IDENT['__convertors__'] = {kw.name: kw.convertor for kw in DEPENDENCY_KWS if kw.convertor}
+    return _IDENT
+
+
+def runtime_value(kw: str, sv: T.Any) -> T.Any:
+    conv = ident_keywords()['__convertors__'].get(kw)
+    return conv(sv) if conv else sv
+
+
+def stag(static: T.Optional[bool]) -> str:
+    return 'n' if static is None else ('t' if static else 'f')
+
+
+def flavour(static: T.Optional[bool], extra: T.Dict[str, T.Any], with_method: bool) -> str:
+    """the part of an identifier besides the name: static flavour + the other identifying keywords"""
+    ex = sorted((k, json.dumps(v, sort_keys=True)) for k, v in extra.items() if with_method or k != 'method')
+    return stag(static) + ''.join(f';{k}={v}' for k, v in ex)
+
+
+def ident_key(ident) -> T.Tuple[str, str]:
+    """(name, flavour) of a real identifier tuple"""
+    d = dict(ident)
+    base = dict(_Impl.dependencies.get_dep_identifier(d['name'], {}))
+    ex = {}
+    for k, v in d.items():
+        if k in ('name', 'static'):
+            continue
+        if v != base.get(k):
+            ex[k] = list(v) if isinstance(v, tuple) else v
+    return d['name'], flavour(d.get('static'), ex, True)
+
+
+# ---------------------------------------------------------------------------------------------
+# the documented rule of meson.override_dependency() (Reference manual, meson.override_dependency:
+# "static: ... If not specified, the dependency follows default_library: both => static and shared")
+# ---------------------------------------------------------------------------------------------
+
+def covered(static: T.Optional[bool], dl: str) -> T.List[T.Tuple[str, bool]]:
+    """[(static flavour tag, strict?)] a registration stands for, in the order it is entered"""
+    if static is None:
+        out = [('n', True)]
+        if dl in ('static', 'both'):
+            out.append(('t', True))
+        if dl in ('shared', 'both'):
+            out.append(('f', True))
+        return out
+    return [('n', False), (stag(static), True)]
+
+
+def tkey(native: bool, name: str, flav: str) -> str:
+    return f"{'B' if native else 'H'}|{name}|{flav}"
+
+
+def register_ops(table: T.Dict[str, T.Any], ops: T.List[dict], dl: str) -> T.Optional[T.Dict[str, T.Any]]:
+    """the table after the override_dependency calls `ops` of a (sub)project whose default_library is `dl`;
+    None when one of them hits a name that is already overridden or resolved (InterpreterException)"""
+    t = dict(table)
+    for op in ops:
+        if not op['name']:
+            return None
+        for tag, strict in covered(op['static'], dl):
+            k = tkey(op['native'], op['name'], tag)
+            if k in t:
+                if strict:
+                    return None
+                continue
+            t[k] = [op['dep'], True]
+    return t
+
+
+# ---------------------------------------------------------------------------------------------
+# the real code: DependencyFallbacksHolder + MesonMain.override_dependency_method over stubs
+# ---------------------------------------------------------------------------------------------
+
+class Session:
+    """One configuration. Full world `fw`:
+      {'wrap_mode','fff','system','provides','main_dl', 'ops': [op], 'cache': {name: dep},
+       'subprojects': {sp: {'state','configure','dl','ops':[op],'vars':{..}}}}
+      op = {'name','dep','static': None|bool,'native': bool}
+    Every override is made through the real `meson.override_dependency()`."""
+
+    def __init__(self, fw: dict):
         _Impl.load()
         I = _Impl
         self.I = I
-        self.world = copy.deepcopy(world)
+        self.world = copy.deepcopy(fw)
         self.effects: T.List[str] = []
-        self.deps: T.Dict[str, T.Any] = {}       # ident -> StubDep (identity preserved across the session)
+        self.deps: T.Dict[str, T.Any] = {}
         HOST = I.MachineChoice.HOST
         self.HOST = HOST
+        self.sub_dl: T.Dict[str, str] = {'': fw['main_dl']}
+        self.setup_errors: T.List[str] = []
         sess = self
+        from mesonbuild.interpreter.mesonmain import MesonMain
 
         def mk(dep):
             ident, found, version = dep
@@ -121,10 +240,12 @@ class Session:
 
         class OptStore:
             def get_value_for(self, key):
-                if key == I.OptionKey('wrap_mode'):
+                if key.name == 'wrap_mode':
                     return sess.world['wrap_mode']
-                if key == I.OptionKey('force_fallback_for'):
+                if key.name == 'force_fallback_for':
                     return list(sess.world['fff'])
+                if key.name == 'default_library':
+                    return sess.sub_dl[key.subproject or '']
                 raise KeyError(key)
 
         class Cache:
@@ -160,12 +281,22 @@ class Session:
         class Build:
             pass
 
+        class Node:
+            filename = 'meson.build'
+            lineno = 1
+            colno = 0
+
         class Interp:
-            subproject = ''
-            current_node = None
+            current_node = Node()
+
+            def __init__(self, subproject):
+                self.subproject = subproject
 
             def do_subproject(self, subp_name, kwargs, force_method=None, forced_options=None):
-                return sess.do_subproject(str(subp_name), kwargs)
+                return sess.do_subproject(str(subp_name), kwargs, forced_options or {})
+
+            def apply_machine_map_to_kwargs(self, kwargs):
+                pass
 
         self.cache = Cache()
         cd = CoreData()
@@ -174,27 +305,46 @@ class Session:
         b = Build()
         b.dependency_overrides = I.PerMachine({}, {})
         b.environment = Env()
-        self.interp = Interp()
-        self.interp.coredata = cd
-        self.interp.build = b
-        self.interp.environment = Env()
-        self.interp.subprojects = I.PerMachine({}, {})
+        self.subprojects = I.PerMachine({}, {})
+
+        def interp_for(subproject: str):
+            it = Interp(subproject)
+            it.coredata = cd
+            it.build = b
+            it.environment = Env()
+            it.subprojects = self.subprojects
+            return it
+        self.interp_for = interp_for
+        self.interp = interp_for('')
         self.build = b
-        # load the concrete state
-        for name, (dep, explicit) in self.world['overrides'].items():
-            self._set_override(name, mk(dep), explicit)
+        self.MesonMain = MesonMain
+        # the state before the lookups, produced by the real registration method
+        self.run_ops('', self.world['ops'], atomic=False)
         for name, dep in self.world['cache'].items():
-            self.cache.d[self._ident(name)] = mk(dep)
+            self.cache.d[I.dependencies.get_dep_identifier(name, {'native': HOST})] = mk(dep)
         for sp, st in self.world['subprojects'].items():
             if st['state'] != 'no':
+                self.sub_dl[sp] = st['dl']
+                if st['state'] == 'found':
+                    self.run_ops(sp, st['ops'], atomic=False)
                 self._register(sp, st, st['state'] == 'found')
 
-    def _ident(self, name: str):
-        return self.I.dependencies.get_dep_identifier(name, {'native': self.HOST})
-
-    def _set_override(self, name, dep, explicit):
-        self.build.dependency_overrides[self.HOST][self._ident(name)] = \
-            self.I.build.DependencyOverride(dep, None, explicit=explicit)
+    def run_ops(self, subproject: str, ops: T.List[dict], atomic: bool) -> bool:
+        """meson.override_dependency(name, dep, static:, native:) calls of `subproject`, through the real method"""
+        I = self.I
+        mm = self.MesonMain(self.build, self.interp_for(subproject))
+        saved = {m: dict(self.build.dependency_overrides[m]) for m in (I.MachineChoice.BUILD, I.MachineChoice.HOST)}
+        for op in ops:
+            try:
+                mm.override_dependency_method([op['name'], self.mk(op['dep'])], {'static': op['static'], 'native': op['native']})
+            except I.MesonException as e:
+                if atomic:
+                    for m, d in saved.items():
+                        self.build.dependency_overrides[m].clear()
+                        self.build.dependency_overrides[m].update(d)
+                    return False
+                self.setup_errors.append(f'{type(e).__name__} for {op}')
+        return True
 
     def _register(self, sp, st, found):
         variables = {}
@@ -202,15 +352,15 @@ class Session:
             for v, d in st['vars'].items():
                 variables[v] = 'not-a-dependency' if d == 'notdep' else self.mk(d)
         h = _Holder(sp, found, variables)
-        self.interp.subprojects[self.HOST][sp] = h
+        self.subprojects[self.HOST][sp] = h
         return h
 
     # stub of Interpreter.do_subproject (interpreter.py:943-1037), reduced to what lookup() observes
-    def do_subproject(self, sp: str, kwargs) -> T.Any:
+    def do_subproject(self, sp: str, kwargs, forced_options) -> T.Any:
         I = self.I
         required = kwargs['required']
         self.effects.append('do_subproject:' + sp)
-        subs = self.interp.subprojects[self.HOST]
+        subs = self.subprojects[self.HOST]
         if sp in subs:
             h = subs[sp]
             if required and not h.found():
@@ -222,14 +372,14 @@ class Session:
             if not required:
                 return self._register(sp, st or {'vars': {}}, False)
             raise I.SubprojectConfigureError('configure failed')
-        if any(self._ident(name) in self.build.dependency_overrides[self.HOST] for name in st['overrides']):
-            # meson.override_dependency on a resolved name is an InterpreterException inside the subproject;
-            # a failed subproject's Build copy is not merged, so none of its overrides survive
+        forced = [v for k, v in forced_options.items() if k.name == 'default_library']
+        self.sub_dl[sp] = forced[0] if forced else st['dl']
+        # the subproject's build file runs: its meson.override_dependency() calls. One of them hitting a resolved
+        # name is an InterpreterException inside the subproject; a failed subproject's Build copy is not merged
+        if not self.run_ops(sp, st['ops'], atomic=True):
             if not required:
                 return self._register(sp, st, False)
             raise I.InterpreterException('Tried to override dependency which has already been resolved or overridden')
-        for name, dep in st['overrides'].items():
-            self._set_override(name, self.mk(dep), True)
         return self._register(sp, st, True)
 
     def find_external_dependency(self, name, env, kwargs):
@@ -253,6 +403,10 @@ class Session:
                 df = I.DF.DependencyFallbacksHolder(self.interp, list(req['names']), self.HOST, req['allow_fallback'], None)
                 df.set_fallback(None if req['fallback'] is None else list(req['fallback']))
                 kwargs = {'native': self.HOST, 'version': list(req['wanted']), 'required': req['required']}
+                if req.get('static') is not None:
+                    kwargs['static'] = req['static']
+                for k, sv in (req.get('extra') or {}).items():
+                    kwargs[k] = runtime_value(k, sv)
                 d = df.lookup(kwargs)
             except I.MesonException as e:
                 return 'error:' + type(e).__name__, self.effects
@@ -262,19 +416,121 @@ class Session:
         finally:
             I.dependencies.find_external_dependency = saved
 
-    def snapshot(self) -> dict:
-        """abstract world after the lookups"""
-        w = copy.deepcopy(self.world)
-        ov = {}
-        for ident, o in self.build.dependency_overrides[self.HOST].items():
-            d = o.dep
-            ov[dict(ident)['name']] = [[getattr(d, 'ident', '?'), d.found(), d.get_version()], bool(o.explicit)]
-        w['overrides'] = ov
-        w['cache'] = {dict(i)['name']: [d.ident, d.found(), d.get_version()] for i, d in self.cache.d.items()}
-        for sp, h in self.interp.subprojects[self.HOST].items():
-            st = w['subprojects'].setdefault(sp, {'state': 'no', 'configure': 'fail', 'overrides': {}, 'vars': {}})
-            st['state'] = 'found' if h.found() else 'disabled'
-        return w
+    def state(self) -> dict:
+        """the real tables, keyed `machine|name|flavour`"""
+        I = self.I
+        table = {}
+        for m, tagm in ((I.MachineChoice.HOST, False), (I.MachineChoice.BUILD, True)):
+            for ident, o in self.build.dependency_overrides[m].items():
+                n, fl = ident_key(ident)
+                d = o.dep
+                table[tkey(tagm, n, fl)] = [[getattr(d, 'ident', '?'), d.found(), d.get_version()], bool(o.explicit)]
+        ctable = {}
+        for ident, d in self.cache.d.items():
+            n, fl = ident_key(ident)
+            ctable[f'{n}|{fl}'] = [d.ident, d.found(), d.get_version()]
+        subs = {sp: ('found' if h.found() else 'disabled') for sp, h in self.subprojects[self.HOST].items()}
+        return {'table': table, 'ctable': ctable, 'subs': subs}
+
+
+def initial_state(fw: dict) -> dict:
+    """the state the documented registration rule prescribes for the world before the lookups"""
+    table: T.Dict[str, T.Any] = {}
+    t = register_ops(table, fw['ops'], fw['main_dl'])
+    table = t if t is not None else table
+    subs = {}
+    for sp, st in fw['subprojects'].items():
+        if st['state'] != 'no':
+            subs[sp] = st['state']
+            if st['state'] == 'found':
+                t = register_ops(table, st['ops'], st['dl'])
+                table = t if t is not None else table
+    ctable = {f'{n}|n': d for n, d in fw['cache'].items()}
+    return {'table': table, 'ctable': ctable, 'subs': subs}
+
+
+def make_slice(fw: dict, state: dict, req: dict) -> dict:
+    """the world as one lookup sees it: the override and cache tables at the lookup's identifier flavour, and for
+    every unconfigured subproject what configuring it *for this lookup* would register there (slice world =
+    the world format of the Lean model and of `Policy`)"""
+    fo = flavour(req.get('static'), req.get('extra') or {}, False)
+    fc = flavour(req.get('static'), req.get('extra') or {}, True)
+    w = {'wrap_mode': fw['wrap_mode'], 'fff': list(fw['fff']), 'system': dict(fw['system']),
+         'provides': {k: list(v) for k, v in fw['provides'].items()}, 'overrides': {}, 'cache': {}, 'subprojects': {}}
+    for k, v in state['table'].items():
+        m, n, fl = k.split('|', 2)
+        if m == 'H' and fl == fo:
+            w['overrides'][n] = v
+    for k, v in state['ctable'].items():
+        n, fl = k.split('|', 1)
+        if fl == fc:
+            w['cache'][n] = v
+    for sp, st in fw['subprojects'].items():
+        cur = state['subs'].get(sp, 'no')
+        s2 = {'state': cur, 'configure': st['configure'], 'overrides': {}, 'vars': st['vars']}
+        if cur == 'no':
+            dl = st['dl'] if req.get('static') is None else ('static' if req['static'] else 'shared')
+            t = register_ops(state['table'], st['ops'], dl)
+            if t is None:
+                s2['configure'] = 'fail'
+            else:
+                for k, v in t.items():
+                    if k not in state['table']:
+                        m, n, fl = k.split('|', 2)
+                        if m == 'H' and fl == fo:
+                            s2['overrides'][n] = v[0]
+        w['subprojects'][sp] = s2
+    for sp, cur in state['subs'].items():
+        if sp not in w['subprojects']:
+            w['subprojects'][sp] = {'state': cur, 'configure': 'fail', 'overrides': {}, 'vars': {}}
+    return w
+
+
+def slice_after(fw: dict, state: dict, req: dict) -> dict:
+    """observable part of the state after a lookup, at that lookup's flavour (slice world format)"""
+    return make_slice(fw, state, req)
+
+
+class FullPolicy:
+    """the documented policy over the keyed tables: registration rule + the decision table at the lookup's flavour"""
+
+    def __init__(self, fw: dict):
+        self.fw = fw
+        self.state = initial_state(fw)
+        self.last: T.Optional['Policy'] = None
+
+    def decide(self, req: dict) -> str:
+        fo = flavour(req.get('static'), req.get('extra') or {}, False)
+        fc = flavour(req.get('static'), req.get('extra') or {}, True)
+        w = make_slice(self.fw, self.state, req)
+        p = Policy(w)
+        out = p.decide(req)
+        self.last = p
+        if out == 'error':
+            return out
+        st = self.state
+        for sp, s2 in p.w['subprojects'].items():
+            before = st['subs'].get(sp, 'no')
+            if s2['state'] != before:
+                st['subs'][sp] = s2['state']
+                if s2['state'] == 'found':
+                    src = self.fw['subprojects'][sp]
+                    dl = src['dl'] if req.get('static') is None else ('static' if req['static'] else 'shared')
+                    t = register_ops(st['table'], src['ops'], dl)
+                    assert t is not None
+                    st['table'] = t
+        for n, v in p.w['overrides'].items():
+            st['table'].setdefault(tkey(False, n, fo), v)
+        for n, v in p.w['cache'].items():
+            st['ctable'][f'{n}|{fc}'] = v
+        return out
+
+
+def canon_state(st: dict) -> str:
+    t = ','.join(f'{k}={v[0][0]}:{int(v[0][1])}:{v[0][2]}:{int(v[1])}' for k, v in sorted(st['table'].items()))
+    c = ','.join(f'{k}={v[0]}:{int(v[1])}:{v[2]}' for k, v in sorted(st['ctable'].items()))
+    s = ','.join(f'{k}={v}' for k, v in sorted(st['subs'].items()))
+    return f'{t};{c};{s}'
 
 
 def canon_world(w: dict) -> str:
